@@ -509,6 +509,10 @@ func NearestIdx(s []float64, v float64) int {
 // by Span with length n and bounds l and u whose value is closest
 // to v. That is, NearestIdxForSpan(n, l, u, v) is equivalent to
 // Nearest(Span(make([]float64, n),l,u),v) without an allocation.
+// When l or u is infinite, elements at an infinite distance from v
+// are not all considered equally near: a finite v is nearest to the
+// elements holding the infinity with the sign of v, and a v equal to
+// an infinite u is nearest to the final element.
 // It panics if n is less than two.
 func NearestIdxForSpan(n int, l, u float64, v float64) int {
 	if n < 2 {
